@@ -510,8 +510,10 @@ func c20Kind(exec string) int {
 		return 1
 	case "opStaticCall":
 		return 2
-	case "opCreate", "opCreate2":
+	case "opCreate":
 		return 3
+	case "opCreate2":
+		return 7
 	case "opIssue":
 		return 4
 	case "opJump":
@@ -644,13 +646,21 @@ func c20Facts(e *env) (string, error) {
 		return "", c20Refuse(e, ufd, "Contract.UseGas body changed: %s", s)
 	}
 
+	// callGas: the 63/64 rule the model states (Model.Evm.callGasU64)
+	cfd, err := e.funcDecl("vm/evm/gas.go", "", "callGas")
+	if err != nil {
+		return "", err
+	}
+	if s := c12Src(e, cfd.Body); s != "{ if gasTable.CreateBySuicide > 0 { availableGas = availableGas - base gas := availableGas - availableGas/64 if callCost.BitLen() > 64 || gas < callCost.Uint64() { return gas, nil } } if callCost.BitLen() > 64 { return 0, errGasUintOverflow } return callCost.Uint64(), nil }" {
+		return "", c20Refuse(e, cfd, "callGas body changed: %s", s)
+	}
 	var keys []int
 	for k := range tab {
 		keys = append(keys, k)
 	}
 	sort.Ints(keys)
 	var sb strings.Builder
-	sb.WriteString("/-- one entry of the jump table: flags, stack signature `(pop, push)` of `makeStackFunc`, price\n(`gasConst = some c`: the gas function is the constant `c`; `none`: dynamic, `gasFn` names it), whether a\n`memorySize` function is attached, and the extra pc advance of `makePush` -/\nstructure Row where\n  op : Nat\n  name : String\n  valid : Bool\n  pop : Nat\n  push : Nat\n  gasConst : Option Nat\n  gasFn : String\n  hasMem : Bool\n  halts : Bool\n  jumps : Bool\n  writes : Bool\n  reverts : Bool\n  returns : Bool\n  pcAdv : Nat\n  exec : String\n  /-- derived from `exec`: 0 other, 1 opCall/opCallCode/opDelegateCall, 2 opStaticCall, 3 opCreate/opCreate2, 4 opIssue, 5 opJump, 6 opJumpi -/\n  kind : Nat\nderiving Repr, DecidableEq, Inhabited\n\n")
+	sb.WriteString("/-- one entry of the jump table: flags, stack signature `(pop, push)` of `makeStackFunc`, price\n(`gasConst = some c`: the gas function is the constant `c`; `none`: dynamic, `gasFn` names it), whether a\n`memorySize` function is attached, and the extra pc advance of `makePush` -/\nstructure Row where\n  op : Nat\n  name : String\n  valid : Bool\n  pop : Nat\n  push : Nat\n  gasConst : Option Nat\n  gasFn : String\n  hasMem : Bool\n  halts : Bool\n  jumps : Bool\n  writes : Bool\n  reverts : Bool\n  returns : Bool\n  pcAdv : Nat\n  exec : String\n  /-- derived from `exec`: 0 other, 1 opCall/opCallCode/opDelegateCall, 2 opStaticCall, 3 opCreate, 4 opIssue, 5 opJump, 6 opJumpi, 7 opCreate2 -/\n  kind : Nat\nderiving Repr, DecidableEq, Inhabited\n\n")
 	fmt.Fprintf(&sb, "/-- the table `NewInterpreter` installs (`%s`) -/\ndef jumpTableName : String := %q\n\n", e.pos(nfd), sel[0])
 	sb.WriteString("/-- the entries present in that table, by opcode -/\ndef rows : List Row := [\n")
 	var jf []map[string]interface{}
@@ -725,6 +735,7 @@ func c20Facts(e *env) (string, error) {
 		{"sstoreResetGas", "cfg.SstoreResetGas", c.consts, "config.SstoreResetGas"},
 		{"sstoreSetGas", "cfg.SstoreSetGas", c.consts, "config.SstoreSetGas"},
 		{"gtCalls", "gt.Calls", c.consts, "GasTableEIP158.Calls"},
+		{"gtCreateBySuicide", "gt.CreateBySuicide", c.consts, "GasTableEIP158.CreateBySuicide: callGas applies the 63/64 rule iff this is > 0"},
 		{"gtExtcodeCopy", "gt.ExtcodeCopy", c.consts, "GasTableEIP158.ExtcodeCopy"},
 		{"gasFastestStep", "GasFastestStep", c.consts, "evm.GasFastestStep"},
 		{"gasSlowStep", "GasSlowStep", c.consts, "evm.GasSlowStep"},
